@@ -89,6 +89,11 @@ CHECKS["C20"] = dict(
    text="Exploration: generated save schedules (valid changes, YAML syntax errors, rule violations, file deletion/creation, touches; gaps 0-120 ms; last state valid) are replayed against a running watcher whose regenerations are stretched by 0/60/350 ms at a hook inside generateImpl, which forces the interleaving the property names (a slow regeneration of older contents overtaken by a fast one). After quiescence the watcher must still be alive and the output tree must equal that of a one-shot generate of the final contents. Failures are re-run three times from their schedule and only reported if they reproduce.",
    note="trusted: the hook (tooling/internal/cmd/verifhook_on.go, no-op without the tag) only sleeps and logs; real-time effects outside the hook remain, so absence of races is not shown",
    ref="DESIGN.md section 3 (C20)")
+CHECKS["C19"] = dict(
+   technique="exhaustive enumeration of the operator/operand-type table plus property-based differential testing of generated C++ and Python computed-field code against an exact rational evaluator",
+   text="Static part (exhaustive): all 11x11 ordered pairs of numeric primitives x {+,-,*,/,**}: yardl gives a verdict for each; verdict and declared result type are symmetric in the operands; the C++ return type and the Python annotation agree; ** yields float64. Dynamic part: generated well-typed expressions (field access, literals, + - * / **, unary minus, casts, vector indexing, size(), explicit parentheses in every association pattern) over a record with one field per numeric primitive are evaluated on generated operand values by the compiled C++ and the Python code; both must equal the exact rational value whenever the documents define it and it fits the declared type (integers exactly, reals within 1e-6/1e-12/1e-9 relative).",
+   note="trusted: harness/ref/expr.go (exact evaluator and the conservative 'in range' gate); evaluations the documents do not define (non-exact integer division, rounding casts, overflow) are not judged; MATLAB code is not executed",
+   ref="DESIGN.md section 3 (C19)")
 NOT_YET = {"C05": "not built yet (evolution data conversions; planned)", "C19": "not built yet (computed fields; planned)", "C20": "not built yet (watch mode; planned)"}
 
 props = [json.loads(l) for l in open("properties.jsonl")]
